@@ -369,8 +369,8 @@ def run_cbmc(q, gb, wd, tag, witness, tier_caps, want_trace, prop_name=None):
     cmd += flags
     if q.backend is not None:
         variants = [("fixed", list(q.backend))]
-    elif witness or os.environ.get("VERIF_NO_PORTFOLIO"):
-        variants = [("cadical", ["--sat-solver", "cadical"])] if witness else [PORTFOLIO[0]]
+    elif os.environ.get("VERIF_NO_PORTFOLIO"):
+        variants = [PORTFOLIO[0]]
     else:
         variants = PORTFOLIO
     procs = []
@@ -520,7 +520,7 @@ def build_native(q, wd, extra_defs):
         else:
             per.append((os.path.join(REPO, u), {}))
     for s in q.stubs:
-        if s == "libc.c":
+        if s in ("libc.c", "libc_loops.c"):
             continue
         per.append((os.path.join(VERIF, "include", "stubs", s), {}))
     for s in q.extra_sources:
